@@ -696,8 +696,12 @@ def _r2_r5(ctx, m, tsent=()):
         sent[("CSR filter", FILE, m.func.lineno)] = ctx.stats["csr_sentinel"]
     sent.update(tsent)       # the literal the dense / odeint templates compare an entry with (c02.dense_layout, any spelling of the test)
     # pattern writer
-    fn = pkg.method("TemplateLoader", "render")
+    pkg.method("TemplateLoader", "render")
     ctx.saw(FILE, "TemplateLoader.render")
+    # the writer extracted into a helper method / a method of the Jacobian record (`self._write_pattern(ode.jac, path)`,
+    # `ode.jac.pattern_text()`) is still these statements: the helpers are put back first
+    from .c02 import RENDER_KEEP
+    fn = pkg.expanded("TemplateLoader", "render", keep=RENDER_KEEP)
     # a helper method that returns the text / the rows / the marks is read as the value it returns
     from ..odemodel import pure_helper_resolver, inline_constants
     import copy as _copy
@@ -1045,10 +1049,8 @@ def _r4_reactions(ctx):
                   "the call _assign_rates('k', <list>, ..) was not found / its list is not traced to a field of netinfo")
     # (b) the field receives network.reactions (the property that supplies the dummy reaction of an empty network)
     import ast as _ast
-    for file, cls, meth in ((FILE, "TemplateLoader", "render"), ("naunet/patches.py", "EnzoPatch", "render")):
-        fn = pkg.classes[cls].methods.get(meth) if cls in pkg.classes else None
-        if fn is None:
-            continue
+    from .c02 import render_functions
+    for file, cls, meth, fn in render_functions(pkg):
         for c in _ast.walk(fn):
             if isinstance(c, _ast.Call) and _ast.unparse(c.func) == "NetworkInfo" and not any(isinstance(a_, _ast.Starred) for a_ in c.args):
                 from .c02 import dataclass_fields
